@@ -246,7 +246,13 @@ func ruleUnsubPrecond(c *Ctx) {
 			}
 			c.inst(1)
 			args := callArgs(call.Common())
-			cnt := args[4]
+			cnt, okCnt := callRoleArg(call, "count")
+			dirArg, okDir := callRoleArg(call, "direct")
+			if !okCnt || !okDir || cnt == nil || dirArg == nil {
+				c.undecided(fnName(fn), "unsubscribe removes exactly the requested count, only if that many direct subscriptions are held", p.InstrPos(call), "the release call's count / direct arguments are not recognised")
+				continue
+			}
+			_ = args
 			enough := func(i *ssa.If) (bool, bool) {
 				b, ok := i.Cond.(*ssa.BinOp)
 				if !ok {
@@ -275,7 +281,7 @@ func ruleUnsubPrecond(c *Ctx) {
 				}
 				return false, false
 			}
-			d, dc := constBool(args[2])
+			d, dc := constBool(dirArg)
 			_, isParam := cnt.(*ssa.Parameter)
 			c.check(p.guardedBy(call, enough) != nil && p.guardedBy(call, found) != nil && dc && d && isParam, fnName(fn), "unsubscribe removes exactly the requested count, only if that many direct subscriptions are held", p.InstrPos(call),
 				"dominated by the lookup and by !(direct < count) with the same count", "an unsubscribe can succeed without enough direct subscriptions (negative count) or removes a different count than it checked")
